@@ -178,14 +178,14 @@ func (e *SpecEnv) lookupIdent(name string) (Val, bool) {
 		if v, ok := e.fr.params[name]; ok {
 			return v, true
 		}
-		if v, ok := e.fr.lookupDebug(name, e.st); ok {
-			return v, true
-		}
-		// free variables of closures
+		// free variables of closures denote the captured cells (pointers): *i is the value
 		for _, fv := range e.fr.fn.FreeVars {
 			if fv.Name() == name {
 				return e.fr.vals[fv], true
 			}
+		}
+		if v, ok := e.fr.lookupDebug(name, e.st); ok {
+			return v, true
 		}
 		// SSA register names as an escape hatch
 		for v, val := range e.fr.vals {
@@ -766,6 +766,7 @@ type specInst struct {
 	ret     types.Type
 	params  []types.Type
 	pending bool
+	rec     bool
 }
 
 func (c *Ctx) findSpec(name string, pkg *types.Package) *SpecFunc {
@@ -847,11 +848,29 @@ func (c *Ctx) instSpec(sf *SpecFunc) *specInst {
 		hnames = append(hnames, "P"+heapKey(k))
 	}
 	bodyT := strings.ReplaceAll(body.T, "@@HEAPS:"+si.name+"@@", strings.Join(hnames, " "))
-	kw := "define-fun"
 	if strings.Contains(bodyT, "("+si.name+" ") {
-		kw = "define-fun-rec"
+		// recursive: uninterpreted symbol with a fuel argument; one unfolding per unit of fuel
+		si.rec = true
+		var sorts, names []string
+		for _, f := range formals {
+			a := splitArgs(f)
+			names = append(names, a[0])
+			sorts = append(sorts, strings.TrimSpace(f[len(a[0])+2:len(f)-1]))
+		}
+		c.declOnce("fuel", "(declare-datatypes ((Fuel 0)) (((FZ) (FS (fpred Fuel)))))")
+		app := "(" + si.name + " (FS fu) " + strings.Join(names, " ") + ")"
+		lower := "(" + si.name + " fu " + strings.Join(names, " ") + ")"
+		unf := strings.ReplaceAll(bodyT, "@@FUEL@@", "fu")
+		fuelForm := fmt.Sprintf("(declare-fun %s (Fuel %s) %s)\n", si.name, strings.Join(sorts, " "), c.sortOf(si.ret)) +
+			fmt.Sprintf("(assert (forall ((fu Fuel) %s) (! (= %s %s) :pattern (%s))))\n", strings.Join(formals, " "), app, unf, app) +
+			fmt.Sprintf("(assert (forall ((fu Fuel) %s) (! (= %s %s) :pattern (%s))))", strings.Join(formals, " "), app, lower, app)
+		recForm := fmt.Sprintf("(define-fun-rec %s ((fu Fuel) %s) %s %s)", si.name, strings.Join(formals, " "), c.sortOf(si.ret), unf)
+		c.recForms = append(c.recForms, [2]string{fuelForm, recForm})
+		c.decl(fmt.Sprintf("@@REC:%d@@", len(c.recForms)-1))
+		si.pending = false
+		return si
 	}
-	c.decl(fmt.Sprintf("(%s %s (%s) %s %s)", kw, si.name, strings.Join(formals, " "), c.sortOf(si.ret), bodyT))
+	c.decl(fmt.Sprintf("(define-fun %s (%s) %s %s)", si.name, strings.Join(formals, " "), c.sortOf(si.ret), bodyT))
 	si.pending = false
 	return si
 }
@@ -860,6 +879,22 @@ func (e *SpecEnv) trNamedCall(name string, args []Expr) Val {
 	c := e.c
 	sf := c.findSpec(name, e.pkg)
 	if sf == nil {
+		// struct constructor: T(field values in order)
+		if te, err := parseTypeExpr(name); err == nil {
+			if t := c.resolveType(te, e.pkg); t != nil {
+				if st := structOf(t); st != nil && st.NumFields() == len(args) {
+					var as []string
+					for i, a := range args {
+						v := e.tr(a)
+						if isFloat(st.Field(i).Type()) && v.Ty != nil && isInteger(v.Ty) {
+							v = e.intToFloat(v)
+						}
+						as = append(as, v.T)
+					}
+					return Val{T: "(mk_" + c.sortOf(t) + " " + strings.Join(as, " ") + ")", Ty: t}
+				}
+			}
+		}
 		return e.errorf("unknown spec function %q", name)
 	}
 	si := c.instSpec(sf)
@@ -884,11 +919,18 @@ func (e *SpecEnv) trNamedCall(name string, args []Expr) Val {
 		if e.heapParams == nil {
 			return e.errorf("recursive instantiation of %s", name)
 		}
-		t := "(" + si.name + " " + strings.Join(append(ts, "@@HEAPS:"+si.name+"@@"), " ") + ")"
+		t := "(" + si.name + " @@FUEL@@ " + strings.Join(append(ts, "@@HEAPS:"+si.name+"@@"), " ") + ")"
 		return Val{T: t, Ty: si.ret}
 	}
 	for _, k := range si.heaps {
 		ts = append(ts, e.heapOf(k))
+	}
+	if si.rec {
+		fuel := "(FS (FS FZ))"
+		if e.inSpecFn != "" {
+			fuel = "(FS FZ)"
+		}
+		ts = append([]string{fuel}, ts...)
 	}
 	if len(ts) == 0 {
 		return Val{T: si.name, Ty: si.ret}
@@ -900,8 +942,10 @@ func (e *SpecEnv) trNamedCall(name string, args []Expr) Val {
 func (e *SpecEnv) modItems(m Expr) []modItem {
 	c := e.c
 	// *p  |  s (slice: whole backing object)  |  p (pointer: its object)
+	deref := false
 	if u, ok := m.(*EUnary); ok && u.Op == "*" {
 		m = u.X
+		deref = true
 	}
 	v := e.tr(m)
 	if v.Ty == nil {
@@ -912,6 +956,11 @@ func (e *SpecEnv) modItems(m Expr) []modItem {
 		el := tt.Elem()
 		if at, ok := el.Underlying().(*types.Array); ok {
 			el = at.Elem()
+		}
+		if deref {
+			if _, isArr := tt.Elem().Underlying().(*types.Array); !isArr {
+				return []modItem{{sortKey: c.sortOf(el), obj: c.acc("pobj", v.T), idx: c.acc("pidx", v.T)}}
+			}
 		}
 		return []modItem{{sortKey: c.sortOf(el), obj: c.acc("pobj", v.T)}}
 	case *types.Slice:
